@@ -30,7 +30,7 @@ ANCHORS = []
 WORKERS = {"quick": 12, "thorough": 16}
 WATCHDOG = {"quick": 1200, "thorough": 3400}
 REQUIRED = {"pair:A-has-resonance-B-lacks": 5, "pair:A-cartesian-B-not": 3, "pair:crossing-reader-classes": 5, "hash-seeds>=2": 1, "exact-reproducibility-run": 2,
-            "history-length>=3": 2, "fresh-single-runs": 10, **{f"entry:{e}": 3 for e in ENTRIES}, "across-hash-seeds-compared": 3, "all-ordered-file-pairs": 1}
+            "history-length>=3": 2, "file-converted-again-after-another": 2, "same-bare-resonance-name-different-sub-lines": 2, "fresh-single-runs": 10, **{f"entry:{e}": 3 for e in ENTRIES}, "across-hash-seeds-compared": 3, "all-ordered-file-pairs": 1}
 EXHAUSTIVE_NOTE = "all 36 ordered pairs of pool files are run in every tier (entry points rotated over the 25 ordered entry pairs); all ordered triples of 3 files in thorough"
 ASSUMPTIONS = ["inside the fresh interpreters the pure name lookup is memoised per (name, particle-table size); the library's one-time loading of the special particles happens inside each history",
                "the parent cannot instrument the child interpreters with sys.monitoring: anchors are not traced for this property (results are observed at the process boundary)"]
@@ -53,6 +53,14 @@ def pool_models():
         m = A.gen_fourbody(r, ev, picks, dangle=False)
         m["cartesian"] = cart
         out.append(m)
+    # files 0 and 5 both write the resonance K(1)(1270)bar- as a bare name with its decay on separate lines -- different ones in the two files
+    for i, subs in ((0, ["K(1)(1270)bar-{K*(892)bar0{K-,pi+},pi-}"]), (5, ["K(1)(1270)bar-[D]{rho(770)0{pi+,pi-},K-}", "K(1)(1270)bar-{K*(892)bar0{K-,pi+},pi-}"])):
+        r = random.Random(f"C20-dangle-{i}")
+        top, _ = A.parse_decay("D0{K(1)(1270)bar-,pi+}")
+        extra = [{"kind": "top", "node": top}] + [{"kind": "sub", "node": A.parse_decay(t)[0]} for t in subs]
+        for ln in extra:
+            ln["nums"] = (0, round(r.uniform(0.1, 2), 5), round(r.uniform(0.001, 0.1), 5), 0, round(r.uniform(-3.1, 3.1), 5), round(r.uniform(0.001, 0.1), 5))
+        out[i]["lines"] = out[i]["lines"] + extra
     return out
 
 
@@ -175,6 +183,11 @@ class Runner:
             ctx.hit("entry:" + e)
         if len(hist) >= 3:
             ctx.hit("history-length>=3")
+        if len(hist) == 3 and hist[0] == hist[2] and hist[0][0] != hist[1][0]:
+            ctx.hit("file-converted-again-after-another")
+        dn = [f for f, _ in hist if f in (0, 5)]
+        if len(set(dn)) == 2:
+            ctx.hit("same-bare-resonance-name-different-sub-lines")
         for (fa, ea), (fb, eb) in zip(hist, hist[1:]):
             if resonance_names(self.models[fa]) - resonance_names(self.models[fb]):
                 ctx.hit("pair:A-has-resonance-B-lacks")
@@ -240,6 +253,10 @@ def run(ctx):
         for i, (fa, fb) in enumerate(pairs):
             ea, eb = epairs[(i * 7 + rot) % len(epairs)]
             jobs.append(([[fa, ea], [fb, eb]], 0 if i % 3 else 1, "pairs"))
+        # a file converted again after another one, by the same entry point (A, B, A)
+        for i, (fa, fb) in enumerate([(0, 5), (5, 0), (1, 3), (2, 4)] if ctx.quick else [(a, b) for a in range(N_POOL) for b in range(N_POOL) if a != b][::3]):
+            e = ["cpp", "py", "read", "read_cpp", "read_py"][i % 5] if not ctx.quick else ["cpp", "py"][i % 2]
+            jobs.append(([[fa, e], [fb, e], [fa, e]], 0, "A-B-A"))
         if not ctx.quick:
             for i, tr in enumerate(itertools.permutations(range(3), 3)):
                 jobs.append(([[f, ENTRIES[(i + k) % 5]] for k, f in enumerate(tr)], 0, "triples"))
